@@ -24,7 +24,8 @@ def build_scripts(ctx):
     fams.append(("running_link", [G.gen_running_link(rng, rng.choice([60, 120, 200])) for _ in range(n_rl)]))
     fams.append(("forged", [G.gen_forged(rng, G.codec_encode, rng.choice([30, 50, 80])) for _ in range(n_fg)]))
     fams.append(("overflow", [G.gen_running_link(rng, mode="overflow") for _ in range(n_of)]
-                 + [G.multiple_disconnected_script()]))
+                 + [G.multiple_disconnected_script(), G.event_after_disconnected_script(True),
+                    G.event_after_disconnected_script(False)]))
     return fams
 
 
@@ -85,7 +86,8 @@ def run_endpoint_correspondence(ctx, profile="debug"):
 
 def confirm_multiple_disconnected(ctx, profile="debug"):
     """The script of C12_multiple_disconnected_refuted on the real endpoint: returns the number of
-    Disconnected events the final poll reports (2 = the defect is present in the code)."""
+    Disconnected events the final poll reports (2 = the defect of the code before 7ec8d35 is present,
+    1 = repaired)."""
     if not getattr(ctx, "bins", None) or profile not in ctx.bins:
         if not ctx.build_harness((profile,)):
             return None
@@ -94,3 +96,19 @@ def confirm_multiple_disconnected(ctx, profile="debug"):
     last = impl[-1]
     ev = last.split(" | ev=")[1].split(" | ")[0] if " | ev=" in last else ""
     return sum(1 for e in ev.split(";") if e == "disconnected")
+
+
+def confirm_event_after_disconnected(ctx, profile="debug"):
+    """The scripts of C12_event_after_disconnected_refuted on the real endpoint: returns the event batches
+    of the polls that report Disconnected (`disconnected` alone = repaired, 25d3021;
+    `disconnected;resumed` / `disconnected;interrupted/1500` = the defect is present)."""
+    if not getattr(ctx, "bins", None) or profile not in ctx.bins:
+        if not ctx.build_harness((profile,)):
+            return None
+    res = []
+    for first in (True, False):
+        impl = ctx.run_impl("endpoint", G.event_after_disconnected_script(first), profile)
+        for r in impl:
+            if " | ev=" in r and "disconnected" in r.split(" | ev=")[1].split(" | ")[0]:
+                res.append(r.split(" | ev=")[1].split(" | ")[0])
+    return res
